@@ -67,7 +67,7 @@ type ContractFile struct {
 	Specs   []*SpecFunc
 	Axioms  []*Axiom
 	Events  []string
-	Ghosts  []string // file-level ghost globals: "name type"
+	Ghosts  []string    // file-level ghost globals: "name type"
 	Guards  [][3]string // guarded_by T.field mutexfield
 	Uses    [][2]string // use name "import/path": which import a package name means when two imports share it
 }
